@@ -99,6 +99,8 @@ def outcome_token(h):
     if o == "nonmsg":
         return "n." + hx(c09_run.secret(h["k"]).encode())
     if o == "rfail":
+        if h["how"] == "unenc":
+            return None          # fails only when sent, see "unenc"
         return "z" if h["how"] == "none" else "q." + hx(c09_run.secret(h["k"]).encode())
     if o == "unenc":
         return None              # the model has no "sending raises" path: judged by the oracle only
@@ -237,6 +239,8 @@ def expected(case, rq, inf):
         code, default = RENDERABLE[h["cls"]]
         text = default if (h["msg"] is None or h["cls"] in FIXED_TEXT) else h["msg"]
         return ("rend", code, text.encode())
+    if o == "unenc" and h.get("how") == "uncopyable":
+        return ("ret", 69, b"ok")                     # a message that can be sent is sent -- once
     return (o, 160, b"")                              # exc / nonmsg / rfail / cancel / unenc: bare 5.00
 
 
@@ -623,7 +627,10 @@ def boundary_cases(gen):
     # 8. a handler whose message cannot be serialised (str payload, option value out of range), quick and slow,
     #    CON and NON, with healthy slow requests of the same and of another peer in flight and afterwards:
     #    one bare 5.00 for it, and nobody else is affected (oracle only)
-    for how in ("payload", "option"):
+    for how, policy in (("payload", "ack"), ("option", "ack"), ("uncopyable", "ack"), ("payload", "ack2"),
+                        ("uncopyable", "ack2")):
+        # policy ack2: the peer acknowledges separate responses only at their first retransmission, so that the
+        # slow unserialisable response has to wait in the queue behind an unacknowledged one
         for d in (0, 3 * EAD):
             for mt in ("CON", "NON"):
                 site = [{"path": ["u"], "handlers": {
@@ -637,7 +644,21 @@ def boundary_cases(gen):
                         gen.request(90, 0, 3, ["u"], mtype="CON", nr=None),
                         gen.request(50 + 10 * EAD, 0, 2, ["u"], mtype="CON", nr=None),
                         gen.request(60 + 10 * EAD, 0, 3, ["u"], mtype="NON", nr=None)]
-                pack(site, reqs, {"0": "ack", "1": "ack"})
+                pack(site, reqs, {"0": policy, "1": "ack"})
+    # 8b. an error renderer whose rendering cannot be serialised, quick and slow, CON and NON, alone and with a
+    #     separate response of the same peer unacknowledged
+    for policy in ("ack", "ack2"):
+        for d in (0, 3 * EAD):
+            site = [{"path": ["v"], "handlers": {
+                "1": {"o": "rfail", "d": d, "stubborn": False, "how": "unenc", "k": gen.secret_k()},
+                "2": {"o": "ret", "d": 2 * EAD, "stubborn": False, "code": None, "payload": "736c6f77", "nr": None},
+                "3": {"o": "ret", "d": 0, "stubborn": False, "code": None, "payload": "6f6b", "nr": None}}}]
+            reqs = [gen.request(50, 0, 2, ["v"], mtype="CON", nr=None),
+                    gen.request(60, 0, 1, ["v"], mtype="CON", nr=None),
+                    gen.request(70, 1, 1, ["v"], mtype="NON", nr=None),
+                    gen.request(90, 0, 3, ["v"], mtype="CON", nr=None),
+                    gen.request(60 + 10 * EAD, 0, 3, ["v"], mtype="NON", nr=None)]
+            pack(site, reqs, {"0": policy, "1": "ack"})
     return cases
 
 
@@ -650,7 +671,8 @@ def observe(case):
 def check_case(env, rep, case, lines, impls, kept):
     obs = observe(case)
     evs, info = schedule(case, obs["stops"])
-    if any(h["o"] == "unenc" for r in case["site"] or [] for h in r["handlers"].values()):
+    if any(h["o"] == "unenc" or (h["o"] == "rfail" and h.get("how") == "unenc")
+           for r in case["site"] or [] for h in r["handlers"].values()):
         rep.count("oracle-only:unencodable-response")
     else:
         lines.append(model_line(case, evs))
